@@ -2,7 +2,7 @@
 """Copy confirmed red-team changes from /tmp/seed-out into /verif/seeded/<id>/ (patch.diff, demo/, RUN.txt, meta.json)."""
 import json, os, shutil, glob
 ROOT = os.path.dirname(os.path.dirname(os.path.abspath(__file__)))
-for d in sorted(glob.glob("/tmp/seed-out/C*/C*-*")):
+for d in sorted(glob.glob("/tmp/seed*-out/C*/C*-*")):
     rp = os.path.join(d, "result.json")
     if not os.path.exists(rp):
         continue
